@@ -5,6 +5,7 @@ mod record_sampler;
 mod replay_kernels;
 mod replay_lattice;
 mod replay_nuts;
+mod replay_massmatrix;
 mod replay_stepsize;
 mod replay_storage;
 
@@ -19,6 +20,7 @@ fn main() {
         "record-chains" => record::main(rest),
         "record-sampler" => record_sampler::main(rest),
         "fault-sweep" => fault_sweep::main(rest),
+        "replay-massmatrix" => replay_massmatrix::main(rest),
         "replay-stepsize" => replay_stepsize::main(rest),
         "replay-storage" => replay_storage::main(rest),
         _ => {
